@@ -15,6 +15,7 @@ func init() {
 		ID: "C12",
 		Rules: []Rule{
 			{"SIGN-BYTES", ruleSignBytes},
+			{"MERGE-CID-BOUND", ruleMergeCidBound},
 			{"VERIFY-BEFORE-FOLLOW", ruleVerifyBeforeFollow},
 			{"VERIFY-KEYMATCH", ruleVerifyKeyMatch},
 			{"SIGN-CONTEXT", ruleSignContext},
@@ -529,4 +530,125 @@ func coversAllButSignature(fi *eng.FuncInfo) (bool, string) {
 		return false, "fields left out of the signed bytes: " + strings.Join(missing, ", ")
 	}
 	return false, "the encoded value is neither a copy of the block nor a literal naming its fields"
+}
+
+// ruleMergeCidBound: what is verified and synced on receipt must be the commit whose merge is then
+// requested. For every publication of an event.Merge in package net, the Cid it carries is bound to
+// the synced data: either the sync call fetches by that very cid (the link system checks the hash),
+// or the sync call takes a decoded block and a guard comparing the block's own generated link with
+// that cid dominates the publication, with the mismatch edge leaving the function.
+func ruleMergeCidBound(c *eng.Ctx) {
+	const rule = "MERGE-CID-BOUND"
+	n := 0
+	for _, fi := range c.P.FuncsIn("net") {
+		if fi.Decl.Body == nil || isTestFile(c.P, fi) {
+			continue
+		}
+		info := fi.Pkg.TypesInfo
+		var flow *eng.FlowGraph
+		ast.Inspect(fi.Decl.Body, func(m ast.Node) bool {
+			cl, ok := m.(*ast.CompositeLit)
+			if !ok || eng.TypeName(info.TypeOf(cl)) != "event.Merge" {
+				return true
+			}
+			var cidExpr ast.Expr
+			for _, el := range cl.Elts {
+				if kv, ok := el.(*ast.KeyValueExpr); ok {
+					if id, ok := kv.Key.(*ast.Ident); ok && id.Name == "Cid" {
+						cidExpr = kv.Value
+					}
+				}
+			}
+			n++
+			construct := shortFn(fi) + ":merge-event:cid-bound-to-synced-data"
+			cidObj := eng.ObjOf(info, cidExpr)
+			if cidObj == nil {
+				c.Unknown(rule, construct, cl.Pos(), "the Cid of the merge event is not a plain variable")
+				return true
+			}
+			// (a) a sync call that takes the cid itself
+			byCid := false
+			var blockObj types.Object
+			for _, cs := range eng.Calls(info, fi.Decl.Body) {
+				if !strings.Contains(strings.ToLower(cs.Name), "sync") || cs.Call.Pos() > cl.Pos() {
+					continue
+				}
+				for _, a := range cs.Call.Args {
+					o := eng.ObjOf(info, a)
+					if o == cidObj {
+						byCid = true
+					}
+					if o != nil && strings.HasSuffix(eng.TypeName(o.Type()), "internal/core/block.Block") {
+						blockObj = o
+					}
+				}
+			}
+			if byCid {
+				c.OK(rule, construct, cl.Pos(), "the DAG is fetched by the cid that is merged")
+				return true
+			}
+			if blockObj == nil {
+				c.Bad(rule, construct, cl.Pos(), "the merge event's cid is neither what the sync call fetched nor compared with a synced block")
+				return true
+			}
+			// (b) guard: link := block.GenerateLink(); if !link.Cid.Equals(cid) { return …err }
+			var linkObj types.Object
+			ast.Inspect(fi.Decl.Body, func(x ast.Node) bool {
+				if as, ok := x.(*ast.AssignStmt); ok && len(as.Rhs) == 1 {
+					if call, ok := ast.Unparen(as.Rhs[0]).(*ast.CallExpr); ok {
+						if se, ok := call.Fun.(*ast.SelectorExpr); ok && se.Sel.Name == "GenerateLink" && eng.ObjOf(info, se.X) == blockObj {
+							linkObj = eng.ObjOf(info, as.Lhs[0])
+						}
+					}
+				}
+				return true
+			})
+			isGuard := func(nd ast.Node) bool {
+				e, ok := nd.(ast.Expr)
+				if !ok || linkObj == nil {
+					return false
+				}
+				found := false
+				ast.Inspect(e, func(x ast.Node) bool {
+					switch y := x.(type) {
+					case *ast.CallExpr:
+						if se, ok := y.Fun.(*ast.SelectorExpr); ok && se.Sel.Name == "Equals" && len(y.Args) == 1 {
+							if mentionsObj(info, se.X, linkObj) && eng.ObjOf(info, y.Args[0]) == cidObj || mentionsObj(info, y.Args[0], linkObj) && mentionsObj(info, se.X, cidObj) {
+								found = true
+							}
+						}
+					case *ast.BinaryExpr:
+						if (y.Op == token.EQL || y.Op == token.NEQ) && (mentionsObj(info, y.X, linkObj) && mentionsObj(info, y.Y, cidObj) || mentionsObj(info, y.Y, linkObj) && mentionsObj(info, y.X, cidObj)) {
+							found = true
+						}
+					}
+					return true
+				})
+				return found
+			}
+			if flow == nil {
+				flow = eng.NewFlow(info, fi.Decl.Body)
+			}
+			pt, ok := flow.PointOf(cl)
+			if !ok {
+				c.Unknown(rule, construct, cl.Pos(), "publication not found in the flow graph")
+				return true
+			}
+			// every path to the publication passes the guard's condition, and the guard's mismatch branch returns
+			unguarded := flow.ReachesWithout(pt, isGuard, nil)
+			leaves := false
+			ast.Inspect(fi.Decl.Body, func(x ast.Node) bool {
+				if is, ok := x.(*ast.IfStmt); ok && isGuard(is.Cond) && len(is.Body.List) > 0 {
+					if _, ok := is.Body.List[len(is.Body.List)-1].(*ast.ReturnStmt); ok {
+						leaves = true
+					}
+				}
+				return true
+			})
+			c.Check(!unguarded && leaves, rule, construct, cl.Pos(), "the merged cid is compared with the synced block's own link; a mismatch leaves the function",
+				"the merge is requested for a cid that is not tied to the block that was verified and synced: a request carrying a valid block under another commit's cid gets that other commit — e.g. a forged one stored by an earlier rejected delivery — merged without verification")
+			return true
+		})
+	}
+	c.Floor(rule, n, 2)
 }
